@@ -3,11 +3,11 @@
 // Contracts for package types, checked by /verif (govc). Comment-only file.
 package types
 
-// IsPrimitive inspects reflect.Kind, which is outside the modelled subset. The contract is stated on the
-// dynamic kinds the YAML decoder produces (nil, string, bool, int, other numeric kinds, []any, map[string]any)
-// and says nothing about other dynamic types.
+// IsPrimitive switches on reflect.TypeOf(v).Kind(). Its body is verified against the engine's model of that expression
+// (the kind under which a value was boxed into `any`; an assumption listed in the evidence and cross-checked by the bounded
+// conformance test). The contract is stated on the dynamic kinds the YAML decoder produces (nil, string, bool, int, other
+// numeric kinds, []any, map[string]any) and says nothing about other dynamic types.
 //@ func IsPrimitive pure
-//@   property C11 C02
-//@   trusted "switches on reflect.TypeOf(v).Kind(); 30 lines; cross-checked by the bounded conformance test of the thorough tier"
+//@   property C11 C02 C03 C04 C05 C06 C07 C12 C14 C15 C16
 //@   ensures [scalars] (isNilAny(v) || isStr(v) || isBool(v) || isInt(v) || isPrimKind(v)) ==> result
 //@   ensures [containers] (isList(v) || isDict(v)) ==> !result
